@@ -1058,5 +1058,74 @@ def c17(tr, cx):
             tr.v('C17', 'state_probabilities_wrong', (str(a), str(b), dict(list(got.items())[:4]), dict(list(exp.items())[:4])))
 
 
+# ---------------------------------------------------------------- C14 normal termination
+def min_service(spec):
+    def mn(d):
+        k = d['d']
+        if k == 'det': return d['v']
+        if k == 'seq': return min(d['s'])
+        if k == 'pmf': return min(d['vals'])
+        return 1e-12
+    return min(mn(d) for c in spec['classes'] for d in spec['services'][c])
+
+
+def c14(tr, cx):
+    spec = cx['spec']
+    run = spec['run']
+    if cx['t_cut'] is not None:
+        return   # everything after an open finding's trigger (including a crash) belongs to that finding
+    tr.count('C14.runs')
+    if cx['status'] == 'crash':
+        c = cx['crash']
+        tr.v('C14', 'crash:%s:%s' % (c[0], c[2]), c)
+        return
+    if cx['status'] == 'cap':
+        ts = [e[1] for e in tr.events if e[0] == 'EVENT']
+        if len(ts) > 5000 and ts[-5000] == ts[-1] and min_service(spec) > 0 and not spec.get('batching'):
+            tr.v('C14', 'no_progress_at_fixed_clock', (ts[-1], len(ts)))
+        return
+    if cx['status'] != 'ok' or cx['final'] is None: return
+    tr.count('C14.runs_completed')
+    fin = cx['final']
+    last = tr.snaps[-1]
+    if run['method'] == 'time':
+        T = run['T']
+        for e in tr.events:
+            if e[0] == 'EVENT':
+                tr.count('C14.events_vs_horizon')
+                if not (e[1] < T): tr.v('C14', 'event_at_or_after_horizon', (e[1], T, e[2], e[3])); break
+        if not (fin['min_next'] >= T): tr.v('C14', 'event_before_horizon_not_executed', (str(fin['min_next']), T))
+        if fin['clock'] != fin['min_next']: tr.v('C14', 'clock_not_at_next_event', (str(fin['clock']), str(fin['min_next'])))
+    elif run['method'] == 'customers':
+        key = {'Complete': 'exit_completed', 'Finish': 'n_exit', 'Arrive': 'n_arr', 'Accept': 'n_accepted'}[run['cmethod']]
+        n = run['n']
+        # harness-side recount (not the engine counters): completed = exit events with completed flag, etc.
+        comp = 0; fini = 0; arrived = 0; accepted = 0; counts = []
+        rejected = set(); baulked = set()
+        for E, inner in groups_of(tr):
+            for e in inner:
+                if e[0] == 'exit':
+                    fini += 1
+                    if e[3]: comp += 1
+                elif e[0] == 'arrive_try': arrived += 1
+            # accepted = created customers that were neither rejected nor baulked: entered a node from the arrival node
+            if E[3] == 'arrival':
+                tried = [e[3] for e in inner if e[0] == 'arrive_try']
+                joined_ = set(e[3] for e in inner if e[0] == 'join')
+                accepted += sum(1 for c in tried if c in joined_)
+            counts.append({'Complete': comp, 'Finish': fini, 'Arrive': arrived, 'Accept': accepted}[run['cmethod']])
+        tr.count('C14.count_stops')
+        if not counts: tr.v('C14', 'stopped_without_event', (n,))
+        else:
+            if counts[-1] < n: tr.v('C14', 'stopped_before_count_reached', (run['cmethod'], n, counts[-3:]))
+            if len(counts) > 1 and counts[-2] >= n: tr.v('C14', 'ran_past_count', (run['cmethod'], n, counts[-3:]))
+            if last[key] != counts[-1]: tr.v('C14', 'engine_counter_differs_from_recount', (run['cmethod'], last[key], counts[-1]))
+    # unfinished customers are left in place: the configuration at return is the one after the last event
+    a = {nid: [(i['id'], i['server'], i['ssd'], i['sed'], i['blocked'], i['arr']) for i in nd['inds']] for nid, nd in fin['snap']['nodes'].items()}
+    b = {nid: [(i['id'], i['server'], i['ssd'], i['sed'], i['blocked'], i['arr']) for i in nd['inds']] for nid, nd in last['nodes'].items()}
+    if a != b or fin['snap']['n_exit'] != last['n_exit'] or fin['snap']['n_arr'] != last['n_arr']:
+        tr.v('C14', 'state_changed_after_last_event', (fin['snap']['n_exit'], last['n_exit']))
+
+
 ORACLES = {'C01': c01, 'C02': c02, 'C03': c03, 'C04': c04, 'C05': c05, 'C06': c06, 'C07': c07, 'C08': c08,
-           'C09': c09, 'C10': c10, 'C11': c11, 'C12': c12, 'C13': c13, 'C17': c17}
+           'C09': c09, 'C10': c10, 'C11': c11, 'C12': c12, 'C13': c13, 'C14': c14, 'C17': c17}
